@@ -192,10 +192,16 @@ impl<'a> Enc<'a> {
             }
         }
         let code_len = off[n];
-        if code_len == 0 || code_len > 65535 {
+        // In the collect pass the pool indices are provisional (first-use order), so `ldc` widths and with them all
+        // distances may still change: limits are judged in the final pass only.
+        let final_pass = self.pool.is_frozen();
+        if final_pass && (code_len == 0 || code_len > 65535) {
             return Err(format!("code_length {} not in 1..=65535", code_len));
         }
         for (i, it) in items.iter().enumerate() {
+            if !final_pass {
+                break;
+            }
             if let Item::Cond(_, t) = it {
                 let d = off[check(*t)?] as i64 - off[i] as i64;
                 if d < -32768 || d > 32767 {
